@@ -11,6 +11,7 @@ CONSTANTS
   EraseKeepsBug = TRUE
   PushFrontRetBug = FALSE
   ReleaseNoClear = FALSE
+  MoveAssignInPlaceBug = FALSE
 VIEW IView
 INVARIANTS ParentConsistent RootsHaveNoParent NoDangling NoLeak Refines ReturnsAgree ITypeOK TypeOK
 CHECK_DEADLOCK FALSE
